@@ -57,8 +57,8 @@ theorem getKw_ref_numKws (ty : String) (isInt : Bool) (o : NumOpts) :
   simp [numKws, getKw_append, getKw_optKw, getKw_kw_cons, multKey, getKw]
 
 theorem boolKw_exclMax_numKws (ty : String) (isInt : Bool) (o : NumOpts) :
-    boolKw "exclusiveMaximum" (numKws true ty isInt o) = o.exclMax := by
-  cases h : o.exclMax <;>
+    boolKw "exclusiveMaximum" (numKws true ty isInt o) = exclEff o := by
+  cases h : exclEff o <;>
     simp [boolKw, numKws, getKw_append, getKw_optKw, getKw_kw_cons, multKey, getKw, h]
 
 theorem boolKw_exclMin_numKws (ty : String) (isInt : Bool) (o : NumOpts) :
@@ -83,15 +83,23 @@ theorem Q_le_congr_right (a b b' : Q) (hn : b'.num = b.num) (hd : b'.den = b.den
     Q.le a b' = Q.le a b := by
   simp [Q.le, hn, hd]
 
+theorem emod_natAbs_mul (a m : Int) (d : Nat) :
+    a % ((Int.ofNat m.natAbs) * (d : Int)) = a % (m * (d : Int)) := by
+  rcases Int.natAbs_eq m with h | h
+  · simp only [Int.ofNat_eq_natCast]; rw [← h]
+  · have : m * (d : Int) = -((Int.ofNat m.natAbs) * (d : Int)) := by
+      simp only [Int.ofNat_eq_natCast]; rw [Int.neg_mul_eq_neg_mul]; rw [← h]
+    rw [this, Int.emod_neg]
+
 theorem jsKws_numKws (R S) (ctx : List (PyVal × PyVal)) (ty : String) (isInt : Bool) (o : NumOpts)
     (d : PyVal) (q : Q)
-    (hex : boolKw "exclusiveMaximum" ctx = o.exclMax) (hem : boolKw "exclusiveMinimum" ctx = false)
+    (hex : boolKw "exclusiveMaximum" ctx = exclEff o) (hem : boolKw "exclusiveMinimum" ctx = false)
     (hty : typeIs ty d = true) (hq : jsNum d = some q)
     (hmult : multOk o.mult q = true)
     (hmin : geMin (effMin isInt o) q = true)
     (hmax : (match effMax isInt o with
              | none => true
-             | some hi => if o.exclMax then Q.lt q hi else Q.le q hi) = true) :
+             | some hi => if exclEff o then Q.lt q hi else Q.le q hi) = true) :
     jsKws R S ctx (numKws true ty isInt o) d = true := by
   simp only [numKws, jsKws_append, jsKws_optKw, and_true_iff']
   refine ⟨⟨⟨⟨?_, ?_⟩, ?_⟩, ?_⟩, ?_⟩
@@ -100,10 +108,12 @@ theorem jsKws_numKws (R S) (ctx : List (PyVal × PyVal)) (ty : String) (isInt : 
     | none => rfl
     | some m =>
       simp only [Option.map, multKey, if_true]
-      have hji : jsNum (PyVal.int m) = some (Q.ofInt m) := rfl
+      have hji : jsNum (absJ m) = some (Q.ofInt (Int.ofNat m.natAbs)) := rfl
       simp [jsKws, kw, kwOf, kwOfStr, kwNode, kwLeaf, hq, hji, isMult, Q.ofInt]
       simp [multOk, hm, Q.isMultipleOf] at hmult
-      simpa using hmult
+      have := emod_natAbs_mul q.num m q.den
+      simp only [Int.ofNat_eq_natCast] at this
+      rw [this]; exact hmult
   · cases hm : effMin isInt o with
     | none => rfl
     | some m =>
@@ -119,10 +129,10 @@ theorem jsKws_numKws (R S) (ctx : List (PyVal × PyVal)) (ty : String) (isInt : 
       simp only [Option.map]
       simp [jsKws, kw, kwOf, kwOfStr, kwNode, kwLeaf, hq, hm1, hex]
       simp only [hm] at hmax
-      cases he : o.exclMax with
+      cases he : exclEff o with
       | false => simp [he] at hmax ⊢; rw [Q_le_congr_right q m m' hm2 hm3]; exact hmax
       | true => simp [he] at hmax ⊢; rw [Q_lt_congr_right q m m' hm2 hm3]; exact hmax
-  · cases he : o.exclMax with
+  · cases he : exclEff o with
     | false => rfl
     | true => simp [jsKws, kw, kwOf, kwOfStr, kwNode, kwLeaf]
 
@@ -133,7 +143,7 @@ theorem jsV_numKws (R S) (ty : String) (isInt : Bool) (o : NumOpts) (d : PyVal) 
     (hmin : geMin (effMin isInt o) q = true)
     (hmax : (match effMax isInt o with
              | none => true
-             | some hi => if o.exclMax then Q.lt q hi else Q.le q hi) = true) :
+             | some hi => if exclEff o then Q.lt q hi else Q.le q hi) = true) :
     jsV R S (.dict (numKws true ty isInt o)) d = true := by
   rw [jsV_dict _ _ _ _ (getKw_ref_numKws ty isInt o)]
   exact jsKws_numKws R S _ ty isInt o d q (boolKw_exclMax_numKws ty isInt o)
@@ -366,6 +376,26 @@ theorem all_filter_of_all {α} (p q : α → Bool) (xs : List α) (h : xs.all q 
   rw [List.all_eq_true] at h ⊢
   intro x hx
   exact h x (List.mem_filter.mp hx).1
+
+/-- `Map[String(constraints), V]`: `patternProperties: {<pattern>: <schema of V>}` -/
+theorem jsV_mapPat (R S) (k : FieldDecl) (s : PyVal) (sz : SizeOpts) (kvs : List (PyVal × PyVal))
+    (hk : (mapKeyPattern k != "") = true)
+    (hall : kvs.all (fun kv => jsV R S s kv.2) = true) :
+    jsV R S (.dict (mapKws (some k) (some s) sz)) (.dict kvs) = true := by
+  have href : getKw "$ref" (mapKws (some k) (some s) sz) = none := by
+    simp [mapKws, hk, getKw_append, getKw_optKw, getKw, kw, keyIs]
+  rw [jsV_dict _ _ _ _ href]
+  suffices h : ∀ ctx, jsKws R S ctx (mapKws (some k) (some s) sz) (.dict kvs) = true from h _
+  intro ctx
+  simp only [mapKws, hk, if_true, jsKws_append, and_true_iff']
+  have h2 := sizeKws_obj R S ctx sz kvs
+  refine ⟨⟨⟨typeObject_ok R S ctx kvs, ?_⟩, h2.1⟩, h2.2⟩
+  simp only [jsKws, kw, kwOf, kwOfStr, kwNode, jsPatsV, jsPats, docKey, Bool.and_true]
+  simp
+  rw [List.all_eq_true] at hall
+  intro a b hab
+  have := hall (a, b) hab
+  cases a <;> simp_all
 
 /-- `Map[String, V]` with an unconstrained key: `additionalProperties: <schema of V>` -/
 theorem jsV_mapOf (R S) (k : FieldDecl) (s : PyVal) (sz : SizeOpts) (kvs : List (PyVal × PyVal))
